@@ -268,10 +268,10 @@ def sanitizer_key(err):
     return kind, scrub(head)[-60:]
 
 
-def death_hazards(log):
+def death_hazards(log, scenario_text=""):
     """Situations of a (reference) log in which the kernel work done on behalf of dying actors matters: dates at which >= 2 actors
     die while somebody returns from join() ('joiners') or a peer of a pending communication is told that it failed
-    ('pending-comms'). Returns '' or 'joiners', 'pending-comms', 'joiners+pending-comms'."""
+    ('pending-comms'), or while the scenario arms kill timers ('kill-timers'). Returns '' or the names joined by '+'."""
     by = {}
     for line in log:
         t = line.split()
@@ -286,4 +286,7 @@ def death_hazards(log):
             d["nf"] = True
     j = any(len(d["E"]) >= 2 and d["join"] for d in by.values())
     c = any(len(d["E"]) >= 2 and d["nf"] for d in by.values())
-    return "+".join(x for x, on in (("joiners", j), ("pending-comms", c)) if on)
+    # dying actors also remove their kill timer from the global timer heap
+    timers = any(l.startswith("A ") and l.split()[5] != "-1" for l in scenario_text.splitlines())
+    k = timers and any(len(d["E"]) >= 2 for d in by.values())
+    return "+".join(x for x, on in (("joiners", j), ("pending-comms", c), ("kill-timers", k)) if on)
